@@ -111,6 +111,13 @@ def units():
     U.append(_unit("sino_shift_and_pad", lambda g: (lambda y0, ny, ymin, ys: [g.sino_shift_and_pad(y0, ny, ymin, ys)[0]]),
                    lambda: (_sym("y0") + [ST.sym("ny", "int")] + _sym("ymin", "ystep"), {}),
                    lambda a, kw, pc: [_T(a[1]) / 2 - (_T(a[0]) - _T(a[2])) / _T(a[3])], requires=ystep_ok))
+    # the pad returned with the shift: the smallest integer >= 2|shift|, plus one (enough to bring the whole scanned disc into the frame)
+    def pad_spec(a, kw, pc):
+        sh = _T(a[1]) / 2 - (_T(a[0]) - _T(a[2])) / _T(a[3])
+        two = z3.If(sh >= 0, 2 * sh, -2 * sh)
+        return [-z3.ToInt(-two) + 1]
+    U.append(_unit("sino_shift_and_pad[pad]", lambda g: (lambda y0, ny, ymin, ys: [g.sino_shift_and_pad(y0, ny, ymin, ys)[1]]),
+                   lambda: (_sym("y0") + [ST.sym("ny", "int")] + _sym("ymin", "ystep"), {}), pad_spec, requires=ystep_ok))
     return U
 
 
